@@ -477,7 +477,7 @@ def configs(tier):
                 ("mask_two_photon", 3), ("mask_one_photon", 2), ("matrix_2x2", 3), ("matrix_1block", 3),
                 ("spin_fermion", 4), ("spin_two_fermions", 3), ("boson_ladder", 3), ("floquet_2x2", 3),
                 ("two_spins", 4), ("jc_mask_counter_rotating", 3), ("two_bosons_mask", 3),
-                ("boson_complex_drive", 2), ("boson_complex_harmonic", 3), ("fermion_complex_hop", 4), ("rabi_y", 3), ("matrix_complex", 3), ("spin_boson_fermion", 3),
+                ("boson_complex_drive", 2), ("boson_complex_harmonic", 3), ("fermion_complex_hop", 4), ("rabi_y", 3), ("matrix_complex", 3), ("spin_boson_fermion", 2),  # three modes of mixed statistics: order 3 exceeds 1500 s (probe)
                 ("matrix_3x3_12", 3), ("matrix_3x3_21", 3)]
     for name, mo in quick if tier == "quick" else thorough:
         cfgs.append(dict(model=name, max_order=mo, _timeout_s=300 if tier == "quick" else 1500))
